@@ -647,6 +647,55 @@ struct Mon {
       }
     }
   }
+  // C04 / C05 over every year of a contiguous block: the constructions and steps that cross the end of February and the
+  // year boundary, expected values from the leap rule alone (y % 4, % 100, % 400 on int64).
+  static bool is_ymd(const cctz::civil_day& d, int64_t y, int m, int dd) { return d.year() == y && d.month() == m && d.day() == dd; }
+  void c04_year_block(int64_t y0, int64_t n) {
+    long bad = 0;
+    for (int64_t i = 0; i < n; ++i) {
+      int64_t y = y0 + i;
+      int lp = (y % 4 == 0 && (y % 100 != 0 || y % 400 == 0)) ? 1 : 0;
+      cctz::civil_second ny(y, 12, 31, 23, 59, 60);
+      bool ok = is_ymd(cctz::civil_day(y, 2, 29), y, lp ? 2 : 3, lp ? 29 : 1) && is_ymd(cctz::civil_day(y, 2, 30), y, 3, lp ? 1 : 2) &&
+                is_ymd(cctz::civil_day(y, 13, 1), y + 1, 1, 1) && is_ymd(cctz::civil_day(y, 1, 0), y - 1, 12, 31) &&
+                is_ymd(cctz::civil_day(y, 0, 31), y - 1, 12, 31) && is_ymd(cctz::civil_day(y, 1, 366), lp ? y : y + 1, lp ? 12 : 1, lp ? 31 : 1) &&
+                is_ymd(cctz::civil_day(y, 3, 0), y, 2, 28 + lp) && ny.year() == y + 1 && ny.month() == 1 && ny.day() == 1 && ny.hour() == 0 &&
+                ny.minute() == 0 && ny.second() == 0;
+      if (!ok && bad++ < 3) {
+        ctx.set_case("class=year-sweep year=%s", S(y).c_str());
+        ctx.viol("C04", "year-sweep", "year " + S(y) + ": (y,2,29)->" + orc::str(get(cctz::civil_day(y, 2, 29))) + " (y,2,30)->" + orc::str(get(cctz::civil_day(y, 2, 30))) +
+                                          " (y,13,1)->" + orc::str(get(cctz::civil_day(y, 13, 1))) + " (y,1,0)->" + orc::str(get(cctz::civil_day(y, 1, 0))) +
+                                          " (y,1,366)->" + orc::str(get(cctz::civil_day(y, 1, 366))) + " (y,3,0)->" + orc::str(get(cctz::civil_day(y, 3, 0))) +
+                                          " (y,12,31,23,59,60)->" + orc::str(get(ny)));
+      }
+    }
+    ctx.stat("C04.evaluations", 8 * n);
+    ctx.stat("C04.year_sweep_years", n);
+    ctx.stat("C04.distinct_nontrivial", n);
+  }
+  void c05_year_block(int64_t y0, int64_t n) {
+    long bad = 0;
+    for (int64_t i = 0; i < n; ++i) {
+      int64_t y = y0 + i;
+      int lp = (y % 4 == 0 && (y % 100 != 0 || y % 400 == 0)) ? 1 : 0;
+      cctz::civil_day jan1(y, 1, 1), next_jan1(y + 1, 1, 1), mar1(y, 3, 1), feb28(y, 2, 28);
+      bool ok = next_jan1 - jan1 == 365 + lp && mar1 - feb28 == 1 + lp && jan1 + (365 + lp) == next_jan1 && next_jan1 - (365 + lp) == jan1 &&
+                is_ymd(mar1 - 1, y, 2, 28 + lp) && cctz::civil_hour(y, 3, 1, 0) - cctz::civil_hour(y, 2, 28, 0) == 24 * (1 + lp) &&
+                cctz::civil_second(y, 1, 1, 0, 0, 0) - cctz::civil_second(y - 1, 12, 31, 23, 59, 59) == 1 &&
+                cctz::civil_month(y, 1) - cctz::civil_month(y - 1, 12) == 1 && cctz::civil_year(y + 1) - cctz::civil_year(y) == 1 && jan1 < mar1 &&
+                feb28 < mar1 && !(next_jan1 < cctz::civil_day(y, 12, 31));
+      if (!ok && bad++ < 3) {
+        ctx.set_case("class=year-sweep year=%s", S(y).c_str());
+        ctx.viol("C05", "year-sweep", "year " + S(y) + ": (y+1,1,1)-(y,1,1)=" + std::to_string(next_jan1 - jan1) + " (y,3,1)-(y,2,28)=" + std::to_string(mar1 - feb28) +
+                                          " (y,1,1)+" + std::to_string(365 + lp) + "=" + orc::str(get(jan1 + (365 + lp))) + " (y,3,1)-1=" + orc::str(get(mar1 - 1)) +
+                                          " hours Feb 28..Mar 1=" + std::to_string(cctz::civil_hour(y, 3, 1, 0) - cctz::civil_hour(y, 2, 28, 0)));
+      }
+    }
+    ctx.stat("C05.evaluations", 12 * n);
+    ctx.stat("C05.year_sweep_years", n);
+    ctx.stat("C05.distinct_nontrivial", n);
+  }
+
   // Every year of a contiguous block, with the oracle advanced incrementally (365 + leap days per year): the weekday of
   // 1 January and 1 March, the ordinals of 1 March and 31 December, and the two weekday searches across the end of
   // February. Lean on purpose (six library calls per year) so that whole integer-width ranges of years can be swept.
@@ -753,14 +802,14 @@ int main(int argc, char** argv) {
   long total_random = a.getl("random", thorough ? 30000000 : 1500000);
   if (prop == "C17") total_random = thorough ? 2000000 : 200000;
   long nrand = (total_random + chunk - 1) / chunk;
-  // C17 year sweep: every year in [-2^30, 2^30) (thorough: [-2^32, 2^32), i.e. every year a 32-bit integer of either
+  // year sweep (C04, C05, C17): every year in [-2^30, 2^30) (thorough: [-2^32, 2^32), i.e. every year a 32-bit integer of either
   // signedness can hold), in blocks of 2^22 years
   const int64_t kBlock = int64_t{1} << 22;
-  int64_t sweep_lo = thorough ? -(int64_t{1} << 32) : -(int64_t{1} << 30);
+  int64_t sweep_lo = thorough ? -(int64_t{1} << 32) : (prop == "C17" ? -(int64_t{1} << 30) : -(int64_t{1} << 29));  // C04/C05 quick: +-2^29
   // --leg main: everything but the sweep (sanitizer build); --leg sweep: the sweep alone (optimised build, the sweep
   // is arithmetic on header-only code and needs speed, not shadow memory); --leg all: both
   std::string leg = a.get("leg", "all");
-  long nsweep = (prop == "C17" && leg != "main") ? static_cast<long>((-2 * sweep_lo) / kBlock) : 0;
+  long nsweep = leg != "main" ? static_cast<long>((-2 * sweep_lo) / kBlock) : 0;
   if (leg == "sweep") ncycle = 0, nrand = 0;
   long ncases = ncycle + nrand + nsweep;
   return sup::supervise(ncases, opt, [&](long c, sup::Ctx& ctx) {
@@ -818,7 +867,11 @@ int main(int argc, char** argv) {
       }
       if (prop == "C17") m.nt.clear(), ctx.stat("C17.distinct_nontrivial", orc::leap(y) ? 366 : 365);
     } else if (c >= ncycle + nrand) {
-      m.c17_year_block(sweep_lo + (c - ncycle - nrand) * kBlock, kBlock);
+      int64_t b0 = sweep_lo + (c - ncycle - nrand) * kBlock;
+      if (prop == "C17") m.c17_year_block(b0, kBlock);
+      else if (prop == "C04") m.c04_year_block(b0, kBlock);
+      else m.c05_year_block(b0, kBlock);
+      return;
     } else {
       if (prop == "C04") {
         if (c == ncycle) c04_constexpr_panel(ctx);
